@@ -6,6 +6,7 @@ package refset
 
 import (
 	"fmt"
+	"math/big"
 	"sort"
 
 	"verif/internal/selfcheck"
@@ -98,17 +99,17 @@ func Interval(n int) Set {
 // Progression returns the documented content of sortints.Range: the elements
 // start + i*step (i = 0, 1, 2, ...) that lie between start (inclusive) and end
 // (exclusive).  The caller guarantees that the set is finite (step points from
-// start towards end).
+// start towards end) and small.  The walk is done in big integers so that it is
+// right up to the limits of int.
 func Progression(start, end, step int) Set {
 	r := Set{}
-	if step > 0 {
-		for x := start; x < end; x += step {
-			r[x] = true
-		}
-	} else if step < 0 {
-		for x := start; x > end; x += step {
-			r[x] = true
-		}
+	if step == 0 {
+		return r
+	}
+	x, e, st := big.NewInt(int64(start)), big.NewInt(int64(end)), big.NewInt(int64(step))
+	for (step > 0 && x.Cmp(e) < 0) || (step < 0 && x.Cmp(e) > 0) {
+		r[int(x.Int64())] = true
+		x.Add(x, st)
 	}
 	return r
 }
@@ -178,6 +179,13 @@ func SelfCheck() error {
 	}
 	if got := fmt.Sprint(Progression(0, 10, 3).Sorted()); got != "[0 3 6 9]" {
 		return fmt.Errorf("Progression(0,10,3) = %s", got)
+	}
+	const maxInt = int(^uint(0) >> 1)
+	if got := fmt.Sprint(Progression(5, 10, maxInt).Sorted()); got != "[5]" {
+		return fmt.Errorf("Progression(5,10,MaxInt) = %s", got)
+	}
+	if got := len(Progression(-maxInt-1, maxInt, 1<<62)); got != 4 {
+		return fmt.Errorf("Progression(MinInt,MaxInt,2^62) has %d elements", got)
 	}
 	if got := fmt.Sprint(Progression(2, 3, 5).Sorted()); got != "[2]" {
 		return fmt.Errorf("Progression(2,3,5) = %s", got)
